@@ -221,7 +221,8 @@ func genItem(r *rand.Rand, allowBad bool) shItem {
 			case 2:
 				b = []byte{}
 			default:
-				b = append(b, 0xc3, 0xa9)
+				// non-ASCII runes, including ones whose low byte is an allowed token character (U+0161 -> 'a', U+012D -> '-')
+				b = append(b, []byte([]string{"\u00e9", "\u0161", "\u0141", "\u012d", "\u0130", "\uff5f"}[r.Intn(6)])...)
 			}
 		}
 		return shItem{"tok", ints(b)}
@@ -305,6 +306,9 @@ func shGen(args []string) error {
 					}
 					if bad && r.Intn(8) == 0 {
 						k[0] = "A1_"[r.Intn(3)]
+					}
+					if bad && r.Intn(8) == 0 {
+						k = append(k, []byte([]string{"\u0161", "\u012d", "\u0130", "\uff5f", "\u00e9"}[r.Intn(5)])...)
 					}
 					if seen[string(k)] {
 						continue
